@@ -338,6 +338,16 @@ fn search(scn: &Scn, rng: &mut Rng, n_sched: usize, rep: &mut RunReport, digest:
         }
         est = (info.steps as u32).max(8);
         digest.u64(info.digest).bytes(&info.trace);
+        if i == 0 {
+            // determinism probe: the recorded trace, replayed, must give the identical event log
+            let mut again = ExecInfo::default();
+            let mut scratch = RunReport::default();
+            let r = execute(scn, &p.globals, &p.pristine, &p.expected, Policy::Replay(info.trace.clone()), 0, &mut scratch, &mut again);
+            rep.bump("replay_probe.executions", 1);
+            if r.is_err() || again.digest != info.digest || again.trace != info.trace {
+                rep.bump("replay_probe.MISMATCH", 1);
+            }
+        }
     }
     None
 }
